@@ -471,7 +471,7 @@ pub fn run(ctx: &Ctx) -> ! {
         "C01-style histories with injected messages that must be rejected, at generated points: field-addressed corruptions (bit flip / truncation / byte set / trailing byte; \
          fields chosen uniformly among the wire fields) of genuine application messages, proposals (public and private) and commits; duplicates; own messages; replays of earlier \
          epochs; commits arriving while the receiver lacks the PSK or while its application refuses the new credentials; corrupted commits while the receiver holds its own pending \
-         commit, cached proposals or a pending own update; and builds the library must refuse (self-removal, unknown PSK, bad index, two GCE, unknown resumption epoch). \
+         commit, cached proposals or a pending own update; and builds the library must refuse (self-removal, unknown PSK, bad index, two GCE, unknown resumption epoch, an Add whose key package has a correctly signed but unusable init key so that the build fails only while the Welcome is sealed; the secrets of a detached commit of an older epoch). \
          Oracle: hook Group::verif_state() before/after the failing call under canonical equality (decoded values, secret tree in normal form, clean cached prior epochs dropped), \
          first on a clone then on the member; afterwards the genuine message is delivered and must be accepted, and the history goes on with N-way agreement and cross-decryption. \
          Non-trivial = rejection at or after authentication (error class not decode/epoch/group-id/wire-format) or while a pending commit / pending update / cached proposals exist; \
